@@ -1,6 +1,8 @@
 """C09 -- existing outputs are never overwritten and _SUCCESS marks only complete saves.
 
-case = (saver, max_retries, parts, pre, wfaults, cfaults, ext)
+case = (saver, max_retries, parts, pre, wfaults, cfaults, ext, persist)
+  persist  (mode, k): mode 0 the saved data set is not persisted; 1 it is persisted (cache()) and take(k) ran on it
+           beforehand (k = 0: nothing materialised yet); 2 the data is persisted BELOW the failing function
   ext      codec extension appended to the target's name: '' | '.gz' | '.bz2' | '.xz' | '.lzma' | '.zip' | '.tar' |
            '.tar.gz' | '.tar.bz2' (part files then carry the tail from its last dot; file contents are observed decoded)
   saver    0 saveAsTextFile, 1 saveAsPickleFile; 2, 3: the same, the target given as file:// URL
@@ -8,7 +10,8 @@ case = (saver, max_retries, parts, pre, wfaults, cfaults, ext)
            whose output is handed to the model)
   pre      state of the target path before the save, as faultfs.snapshot: (0,) | (1, bytes) | (2, [((kind, i), bytes)...])
   wfaults  [(dump_call_index, mode, j, cls)]  mode 0 before / 1 after mkdir / 2 torn after j bytes   (faultfs.FaultFS)
-  cfaults  [(partition, attempt, cls, lazy)]  computations that raise, at the call or lazily       (faultfs.FaultyPartitions)
+  cfaults  [(partition, attempt, cls, lazy, pos)]  computations that raise, at the call or lazily when element pos
+           is asked for (pos >= size: after the last element)                                  (faultfs.FaultyPartitions)
   cls      0 the injector's own Exception subclass, 1 OSError, 2 StopIteration, 3 GeneratorExit,
            4 (computations only) StopIteration raised by next() on an empty iterator inside the partition function
 
@@ -91,15 +94,16 @@ def _content(saver, part):
 
 
 def kind(case):
-    saver, m, parts, pre, wf, cf, ext = case
+    saver, m, parts, pre, wf, cf, ext, persist = case
     s = ('text' if saver % 2 == TEXT else 'pickle') + ('-url' if saver >= 2 else '')
     p = ['absent', 'file', 'dir'][pre[0]]
     f = ('w' if wf else '') + ('c' if cf else '') or 'nofault'
-    return f'{s}{"+codec" if ext else ""}/{p}/{f}'
+    return f'{s}{"+codec" if ext else ""}{"+persisted" if persist[0] else ""}/{p}/{f}'
 
 
 def impl(case):
-    saver, m, parts, pre, wfaults, cfaults, ext = case
+    saver, m, parts, pre, wfaults, cfaults, ext, persist = case
+    pmode, pk = persist
     pre = tuple(pre)
     n = len(parts)
     d = os.path.join(_BASE, str(next(_counter)))
@@ -110,8 +114,20 @@ def impl(case):
         faultfs.materialise(target, pre, ext)
         ctx = Context(max_retries=m)
         data = [_elements(saver, p) for p in parts]
-        rdd = ctx.parallelize(range(n), n).mapPartitionsWithIndex(faultfs.FaultyPartitions(data, cfaults))
+        faulty = faultfs.FaultyPartitions(cfaults)
+        rdd = ctx.parallelize(range(n), n).mapPartitionsWithIndex(faultfs.PartitionData(data))
+        if pmode == 2:
+            rdd = rdd.persist()
+        rdd = rdd.mapPartitionsWithIndex(faulty)
+        if pmode == 1:
+            rdd = rdd.cache()
         assert rdd.getNumPartitions() == n
+        if pmode and pk:
+            # materialise part of the persisted data set beforehand, faults not armed
+            faulty.armed = False
+            got = [rdd.first()] if pk == 1 and any(data) else rdd.take(pk)
+            assert got == [x for part in data for x in part][:pk]
+            faulty.armed = True
         outcome = None
         with faultfs.FaultFS(target, wfaults, ext) as ff:
             try:
@@ -131,15 +147,21 @@ def impl(case):
             follow = None if r == [0, 1, 2] else Err('WrongResult')
         except Exception as e:  # pylint: disable=broad-except
             follow = Err(type(e).__name__)
-        read = None
-        if outcome is None or (pre == ABSENT and _has_marker(final)):
-            try:
-                c2 = Context()
-                read = (c2.textFile(url) if saver % 2 == TEXT else c2.pickleFile(url)).collect()
-            except Exception as e:  # pylint: disable=broad-except
-                read = Err(type(e).__name__)
+        read = per_part = None
         names = sorted(os.listdir(target), key=lambda x: x.encode()) if os.path.isdir(target) else []
-        return (outcome, final, hist, ff.calls, locked, follow, read, names)
+        if outcome is None or (pre == ABSENT and _has_marker(final)):
+            c2 = Context()
+
+            def rd(u):
+                try:
+                    return (c2.textFile(u) if saver % 2 == TEXT else c2.pickleFile(u)).collect()
+                except Exception as e:  # pylint: disable=broad-except
+                    return Err(type(e).__name__)
+            read = rd(url)
+            if os.path.isdir(target):
+                # every part file on its own, in name order
+                per_part = [rd(url + '/' + f) for f in names if f.startswith('part')]
+        return (outcome, final, hist, ff.calls, locked, follow, read, names, per_part)
     finally:
         shutil.rmtree(d, ignore_errors=True)
 
@@ -148,21 +170,44 @@ def _has_marker(snap):
     return snap[0] == 2 and any(tuple(c) == (1, 0) for c, _ in snap[1])
 
 
+def _pickle_items(raw):
+    """Every object pickled into `raw`, lists flattened (one frame per partition or several batches: the oracle
+    does not prescribe the framing); None when the bytes are not a sequence of pickles."""
+    import io
+    out, stream = [], io.BytesIO(raw)
+    try:
+        while stream.tell() < len(raw):
+            obj = pickle.load(stream)
+            out.extend(obj) if isinstance(obj, list) else out.append(obj)
+    except Exception:  # pylint: disable=broad-except
+        return None
+    return out if raw else None
+
+
+def _holds(saver, part, raw):
+    """The file content `raw` is the data of partition `part`: text files byte for byte (one line per element),
+    pickle files by what they contain."""
+    if saver % 2 == TEXT:
+        return raw == _content(saver, part)
+    return _pickle_items(raw) == _elements(saver, part)
+
+
 def _complete(saver, parts, snap):
     """snap is exactly the directory of a complete save of `parts`."""
-    want = [((1, 0), b'')] + [((0, i), _content(saver, p)) for i, p in enumerate(parts)]
-    return snap[0] == 2 and [(tuple(c), b) for c, b in snap[1]] == want
+    if snap[0] != 2 or [tuple(c) for c, _ in snap[1]] != [(1, 0)] + [(0, i) for i in range(len(parts))]:
+        return False
+    return snap[1][0][1] == b'' and all(_holds(saver, p, b) for p, (_, b) in zip(parts, snap[1][1:]))
 
 
 def oracle(case, result):
     """The statement of C09 evaluated on what the implementation did (no reference to the Coq model)."""
-    saver, m, parts, pre, wfaults, cfaults, ext = case
+    saver, m, parts, pre, wfaults, cfaults, ext, persist = case
     pre = tuple(pre)
     n = len(parts)
     site = 'saveAsTextFile' if saver % 2 == TEXT else 'saveAsPickleFile'
     if isinstance(result, Err):
         return (f'{site}:harness', f'could not observe: {result}')
-    outcome, final, hist, calls, locked, follow, read, names = result
+    outcome, final, hist, calls, locked, follow, read, names, per_part = result
     flat = [x for p in parts for x in _elements(saver, p)]
     # the context remains usable, whatever happened
     if locked or follow is not None:
@@ -200,7 +245,7 @@ def oracle(case, result):
     else:
         # 4. success is reported only for a complete save
         if n == 1:
-            if final != (1, _content(saver, parts[0])):
+            if final[0] != 1 or not _holds(saver, parts[0], final[1]):
                 return (f'{site}:success-without-complete-output', f'final {final!r}')
         elif not _complete(saver, parts, final):
             return (f'{site}:success-without-complete-output', f'final {final!r}, names {names!r}')
@@ -213,7 +258,14 @@ def oracle(case, result):
             if not hist or not _has_marker(hist[-1]) or any(_has_marker(h) for h in hist[:-1]):
                 return (f'{site}:marker-not-written-last', f'history {hist!r}')
     # 5. the error reaches the caller
-    for i in range(n):
+    # (partitions of a persisted data set that take(k) materialised beforehand are not computed by the save)
+    skip = 0
+    if persist[0] == 1:
+        need = persist[1]
+        while need > 0 and skip < n:
+            need -= len(_elements(saver, parts[skip]))
+            skip += 1
+    for i in range(skip, n):
         if all((i, a) in {(c[0], c[1]) for c in cfaults} for a in range(1, m + 1)) and outcome is None:
             return (f'{site}:compute-failure-swallowed', f'partition {i} fails on every attempt, save returned normally')
     if not cfaults and wfaults and outcome is None:
@@ -232,6 +284,8 @@ def oracle(case, result):
     if _has_marker(final) or outcome is None:
         if read != flat:
             return (f'{site}:read-back', f'read {read!r}, saved {flat!r}')
+        if per_part is not None and per_part != [_elements(saver, p) for p in parts]:
+            return (f'{site}:read-back-per-part-file', f'part files read {per_part!r}, saved {[_elements(saver, p) for p in parts]!r}')
     return None
 
 
@@ -245,7 +299,8 @@ def _norm(snap):
 
 
 def nontrivial(case, result):
-    return bool(case[4]) or bool(case[5]) or tuple(case[3]) != ABSENT or bool(case[6])
+    return bool(case[4]) or bool(case[5]) or tuple(case[3]) != ABSENT or bool(case[6]) or bool(case[7][0]) \
+        or max((len(_elements(case[0], p)) for p in case[2]), default=0) > 3
 
 
 # ---------------------------------------------------------------- generation
@@ -289,8 +344,71 @@ def _w(k, mode, j, cls=INJECTED):
     return (k, mode, j, cls)
 
 
-def _c(i, a, cls=INJECTED, lazy=None):
-    return (i, a, cls, bool((i + a) % 2) if lazy is None else lazy)
+def _c(i, a, cls=INJECTED, lazy=None, pos=1):
+    return (i, a, cls, bool((i + a) % 2) if lazy is None else lazy, pos)
+
+
+NOPERSIST = (0, 0)
+SIZES = [0, 1, 9, 10, 11, 20, 21, 25, 103]   # around the pickle writer's batchSize=10 and its multiples
+
+
+def _sized_part(saver, size, tag, tail_blank=0):
+    """A partition of `size` elements; text: the last `tail_blank` of them render as ''."""
+    if saver % 2 == TEXT:
+        return [f'{tag}{j}' for j in range(size - tail_blank)] + [''] * min(tail_blank, size)
+    els = [tag * 1000 + j for j in range(size)]
+    return (pickle.dumps(list(els)), els)
+
+
+def _size_sweep(rng, quick):
+    """Partition sizes across the writer's batch boundaries, both savers, no fault and a masked one."""
+    cases = []
+    for saver in (TEXT, PICKLE):
+        for i, size in enumerate(SIZES):
+            others = rng.sample(SIZES[:8], 2)
+            for n, sizes in ((1, [size]), (3, [others[0], size, others[1]])):
+                parts = [_sized_part(saver, sz, t + 1, tail_blank=rng.choice([0, 1, 2]) if t == n // 2 else 0)
+                         for t, sz in enumerate(sizes)]
+                cases.append((saver, 1, parts, ABSENT, [], [], '', NOPERSIST))
+                if size in (10, 11, 25) or not quick:
+                    cases.append((saver, 2, parts, ABSENT, [_w(n // 2, TORN, 7)], [], '', (1, size)))
+                    cases.append((saver, 1, parts, ABSENT, [], [], rng.choice(EXTS), NOPERSIST))
+        # text: partitions that consist of / end with elements rendering as ''
+        if saver == TEXT:
+            for parts in ([[''], ['a'], []], [['a', ''], [''], ['', '']], [['', 'a', ''], [], ['b', '', '']], [['']], [['a', '', '']]):
+                cases.append((saver, 1, parts, ABSENT, [], [], '', NOPERSIST))
+    return cases
+
+
+def _persist_sweep(rng, quick):
+    """A persisted data set being saved while the computation of partition k fails part-way through its iteration:
+    persisted on top (not materialised / partly materialised by first() or take(k)), persisted below the failing
+    function, not persisted; fault at the first, a middle, the last element and after the last; on every attempt
+    and on the first attempt(s) only; max_retries 1..3; both savers; every partition index."""
+    cases = []
+    for saver in (TEXT, PICKLE):
+        for n in ((2, 3) if quick else (1, 2, 3, 4)):
+            sizes = [rng.choice([0, 1, 2, 4, 5]) for _ in range(n)]
+            if not any(sizes):
+                sizes[-1] = 3
+            parts = [_sized_part(saver, sz, t + 1) for t, sz in enumerate(sizes)]
+            total = sum(sizes)
+            for k in range(n):
+                positions = sorted({0, sizes[k] // 2, max(sizes[k] - 1, 0), sizes[k], sizes[k] + 2})
+                for persist in ((0, 0), (1, 0), (1, 1), (1, max(1, total // 2)), (1, total + 1), (2, 0), (2, 1)):
+                    for pos in (positions if persist[0] == 1 and persist[1] == 0 else rng.sample(positions, 2)):
+                        cls = rng.choice([INJECTED, INJECTED, OSERROR, STOP])
+                        for m in (2, 3) if persist == (1, 0) else (rng.choice([1, 2, 3]),):
+                            # on every attempt
+                            cases.append((saver, m, parts, ABSENT, [], [_c(k, a, cls, True, pos) for a in range(1, m + 1)], '', persist))
+                            # transient: the first attempt(s) only
+                            if m > 1:
+                                cases.append((saver, m, parts, ABSENT, [], [_c(k, a, cls, True, pos) for a in range(1, m)], '', persist))
+                    # a write fault on part k's first attempt, a compute fault scripted for its second: a persisted
+                    # partition is not computed again after an attempt whose computation succeeded
+                    cases.append((saver, 3, parts, ABSENT, [_w(k, BEFORE, 0)], [_c(k, 2, INJECTED, True, 0)], '', persist))
+    return cases
+
 
 
 def generate(rng, tier):
@@ -301,8 +419,10 @@ def generate(rng, tier):
     for path in sorted(glob.glob(os.path.join(root, 'corpus', 'C09', '*.json'))):
         with open(path) as f:
             cases.append(uncanon(json.load(f)['case']))
-    cases += [c + ('',) for c in _plain_sweep(rng, quick)]
-    cases += _codec_sweep(rng, quick)
+    cases += [c + ('', NOPERSIST) for c in _plain_sweep(rng, quick)]
+    cases += [c + (NOPERSIST,) for c in _codec_sweep(rng, quick)]
+    cases += _size_sweep(rng, quick)
+    cases += _persist_sweep(rng, quick)
     # random plans
     for _ in range(700 if quick else 8000):
         saver = rng.choice((TEXT, PICKLE)) + rng.choice((0, 0, 2))
@@ -327,8 +447,9 @@ def generate(rng, tier):
                 lazy = False if cls == NATURAL else rng.random() < 0.5
                 cf += [_c(i, a, cls, lazy) for a in range(1, m + 1)]
             elif r < 0.35:
-                cf += [_c(i, a, rng.choice(classes), rng.random() < 0.5) for a in range(1, m + 1) if rng.random() < 0.5]
-        cases.append((saver, m, parts, pre, wf, cf, ext))
+                cf += [_c(i, a, rng.choice(classes), rng.random() < 0.5, rng.choice([0, 1, 2, 9])) for a in range(1, m + 1) if rng.random() < 0.5]
+        persist = rng.choice([(0, 0), (0, 0), (1, 0), (1, rng.randint(1, 6)), (2, rng.randint(0, 3))])
+        cases.append((saver, m, parts, pre, wf, cf, ext, persist))
     return cases
 
 
@@ -456,11 +577,15 @@ def extra_evidence():
 
 
 def shrink_candidates(case):
-    saver, m, parts, pre, wf, cf, ext = case
+    saver, m, parts, pre, wf, cf, ext, persist = case
     for c in _shrink6((saver, m, parts, pre, wf, cf)):
-        yield c + (ext,)
+        yield c + (ext, persist)
     if ext and not any(w[1] == TORN for w in wf):
-        yield (saver, m, parts, pre, wf, cf, '')
+        yield (saver, m, parts, pre, wf, cf, '', persist)
+    if persist[0]:
+        yield (saver, m, parts, pre, wf, cf, ext, NOPERSIST)
+        if persist[1]:
+            yield (saver, m, parts, pre, wf, cf, ext, (persist[0], 0))
 
 
 def _shrink6(case):
